@@ -471,7 +471,9 @@ func (r Registers) StringWithByteOrder(address uint16, length uint8, byteOrder B
 
 	// TODO: clean these loops up to single for loop
 
-	rawBytes := r.data[startIndex:endIndex]
+	// work on a copy as swapping bytes in place would modify response data that registers share
+	rawBytes := make([]byte, endIndex-startIndex)
+	copy(rawBytes, r.data[startIndex:endIndex])
 	if byteOrder&BigEndian != 0 {
 		for i := 1; i < len(rawBytes); i++ {
 			// data is in BIG ENDIAN format in register (register is 2 bytes). so every 2 bytes needs to have their bytes swapped
